@@ -11,6 +11,12 @@ E1 only (exploration).  Sub-checks (names usable with --only):
              every order: Basis, class on S<=7/8 through pattern profiles, Av identity, and the
              text forms (0-based, 1-based, mixed; separators; wrappers) through
              Basis.from_string / Av.from_string.
+  minimal    minimality only, on larger classical collections: every set of <= 4 patterns of
+             S1..S4 (thorough also 5), sets with one pattern of S5 next to <= 2 (thorough 3)
+             shorter ones, chains over three lengths {a, c in S5, one-point extension of c}
+             (thorough also {c, c2 in S5, extension of c}); Basis in every order (the larger
+             thorough families: sorted/reversed/rotations), from_iterable, Av(...).basis and
+             MeshBasis must consist of exactly the reference minimal elements
   longtext   text forms of longer patterns (all of S5, S6 (thorough), strided S7..S10) alone and
              next to a short pattern.
   iterator   the same collections handed over as one-shot iterators (known finding, see
@@ -570,6 +576,176 @@ def shard_longtext(shard):
 
 
 # --------------------------------------------------------------------------------------------
+# minimality only: larger classical collections, chains over three lengths
+# --------------------------------------------------------------------------------------------
+
+_CONT = {}
+
+
+def cl_contains(p, q):
+    """q is contained in p (classical), memoised."""
+    k = (p, q)
+    v = _CONT.get(k)
+    if v is None:
+        v = _CONT[k] = R.contains(p, q)
+    return v
+
+
+def cl_minimal(pset):
+    return frozenset(p for p in pset
+                     if not any(q != p and len(q) <= len(p) and cl_contains(p, q) for q in pset))
+
+
+def orders_for(pset, mode):
+    """mode "all": every order; "rot": sorted, reversed and every rotation of the sorted order."""
+    pset = sorted(pset, key=lambda t: (len(t), t))
+    if mode == "all":
+        return list(itertools.permutations(pset))
+    out = [tuple(pset), tuple(pset[::-1])]
+    for r in range(1, len(pset)):
+        out.append(tuple(pset[r:] + pset[:r]))
+    return out
+
+
+def check_minimal_set(part, pset, mode, mesh):
+    """Basis in every order of `mode`, Basis.from_iterable, the basis of Av(list) and (if `mesh`)
+    MeshBasis in two orders must consist of exactly the reference minimal elements."""
+    L = lib()
+    case = {"patterns": [list(p) for p in pset], "orders": mode}
+    want = cl_minimal(pset)
+    first = None
+    n = 0
+    try:
+        for seq in orders_for(pset, mode):
+            n += 1
+            b = L.Basis(*[L.Perm(p) for p in seq])
+            got = [tuple(e) for e in b]
+            if len(got) != len(set(got)) or set(got) != want:
+                part.violation("minimal:basis", dict(case, order=[list(p) for p in seq]),
+                               {"expected": sorted(map(list, want)), "got": [list(g) for g in got]})
+                return n
+            if first is None:
+                first = b
+            elif not _same(first, b):
+                part.violation("minimal:order", dict(case, order=[list(p) for p in seq]),
+                               {"first": repr(first), "this": repr(b)})
+                return n
+        objs = [L.Perm(p) for p in pset]
+        b = L.Basis.from_iterable(iter(objs[::-1]))
+        if not _same(first, b):
+            part.violation("minimal:from_iterable", case, {"first": repr(first), "this": repr(b)})
+            return n
+        av = L.Av(list(objs))
+        if type(av.basis) is not L.Basis or not _same(first, av.basis) or \
+                av is not L.Av(tuple(objs[::-1])):
+            part.violation("minimal:av", case, {"basis": repr(av.basis), "built": repr(first)})
+            return n
+        n += 2
+        if mesh:
+            for seq in (objs, objs[::-1]):
+                mb = L.MeshBasis(*seq)
+                got = [readback(e) for e in mb]
+                if len(got) != len(set(got)) or \
+                        set(got) != set((p, frozenset()) for p in want):
+                    part.violation("minimal:meshbasis", case,
+                                   {"expected": sorted(map(list, want)),
+                                    "got": [show(g) for g in got]})
+                    return n
+                n += 1
+    except Exception as exc:  # noqa
+        part.violation("minimal:exception", case, {"exception": repr(exc)})
+    return n
+
+
+def extensions(p):
+    """All one-point extensions of p (a new point at any position with any value)."""
+    n = len(p)
+    return sorted(set(R.insert_point(p, i, v) for i in range(n + 1) for v in range(n + 1)))
+
+
+def minimal_family(name, quick):
+    """The stated families of classical sets (each yields tuples of patterns, each set once).
+      small     all sets of 1..k patterns of S1..S4 (k = 4)
+      five      (thorough) all sets of 5 patterns of S1..S4 [orders: sorted, reversed, rotations]
+      one-long  {c} + T, c in S5 (= all one-point extensions of S4), T a set of 0..2 patterns of
+                S1..S4
+      one-long3 (thorough) the same with |T| = 3 [orders: sorted, reversed, rotations]
+      chain     {a, c, d}: a in S1..S3 (thorough S1..S4), c in S5, d a one-point extension of c
+                (three lengths in one set; d always contains c)
+      two-long  (thorough) {c, c2, d}: c, c2 in S5, d a one-point extension of c"""
+    s14 = [p for n in range(1, 5) for p in R.perms(n)]
+    s5 = R.perms(5)
+    if name == "small":
+        for r in range(1, 5):
+            yield from itertools.combinations(s14, r)
+    elif name == "five":
+        yield from itertools.combinations(s14, 5)
+    elif name == "one-long":
+        for c in s5:
+            for r in range(0, 3):
+                for t in itertools.combinations(s14, r):
+                    yield t + (c,)
+    elif name == "one-long3":
+        for c in s5:
+            for t in itertools.combinations(s14, 3):
+                yield t + (c,)
+    elif name == "chain":
+        short = [p for p in s14 if len(p) <= (3 if quick else 4)]
+        for c in s5:
+            for d in extensions(c):
+                for a in short:
+                    yield (a, c, d)
+    elif name == "two-long":
+        for c in s5:
+            ext = extensions(c)
+            for c2 in s5:
+                if c2 != c:
+                    for d in ext:
+                        yield (c, c2, d)
+    else:
+        raise ValueError(name)
+
+
+MINIMAL_PLAN = {
+    # family: (order mode, also MeshBasis?)
+    "small": ("all", True), "five": ("rot", False), "one-long": ("all", True),
+    "one-long3": ("rot", False), "chain": ("all", False), "two-long": ("all", False),
+}
+
+
+def shard_minimal(shard):
+    name, quick, index, nsh = shard
+    mode, mesh = MINIMAL_PLAN[name]
+    part = Partial()
+    fresh_class_cache()
+    for k, pset in enumerate(minimal_family(name, quick)):
+        if k % nsh != index:
+            continue
+        n = check_minimal_set(part, pset, mode, mesh)
+        want = cl_minimal(pset)
+        pruned = [p for p in pset if p not in want]
+        nt = 1 if (pruned and len(want) >= 1 and len(pset) >= 2) else 0
+        part.add(n, nt)
+        part.bump("minimal_sets")
+        if pruned:
+            # the shape that needs every accepted pattern to be consulted: >= 2 kept patterns
+            # of one length and a longer pruned pattern that contains only a non-first one
+            by_len = {}
+            for p in sorted(want, key=lambda t: (len(t), t)):
+                by_len.setdefault(len(p), []).append(p)
+            for q in pruned:
+                hit = [p for p in sorted(want, key=lambda t: (len(t), t))
+                       if len(p) < len(q) and cl_contains(q, p)]
+                if hit and all(by_len[len(p)][0] != p for p in hit):
+                    part.bump("minimal_sets_pruned_only_by_a_non_first_pattern_of_its_length")
+                    break
+        if k == index and pset:
+            part.sample({"family": name, "set": [list(p) for p in pset],
+                         "reference_minimal_elements": sorted(map(list, want))}, cap=1)
+    return part
+
+
+# --------------------------------------------------------------------------------------------
 # one-shot iterators (known finding)
 # --------------------------------------------------------------------------------------------
 
@@ -713,6 +889,20 @@ def run(ctx, only=None):
                                            "numberings for size 3" % (len(F.SEPARATORS),
                                                                       len(F.WRAPS))}
         ctx.section("classical", sets=len(psets), evaluations=ctx.evals - e0)
+    if want("minimal"):
+        fams = ["small", "one-long", "chain"] if quick else \
+            ["small", "five", "one-long", "one-long3", "chain", "two-long"]
+        info = {}
+        for name in fams:
+            e0 = ctx.evals
+            c0 = ctx.counters.get("minimal_sets", 0)
+            nsh = 96
+            ctx.pmap(shard_minimal, [(name, quick, i, nsh) for i in range(nsh)])
+            info[name] = {"sets": ctx.counters.get("minimal_sets", 0) - c0,
+                          "orders": MINIMAL_PLAN[name][0], "meshbasis_too": MINIMAL_PLAN[name][1]}
+            ctx.section("minimal", family=name, sets=info[name]["sets"],
+                        evaluations=ctx.evals - e0)
+        ctx.bounds["minimal"] = {"families": info, "definition": minimal_family.__doc__}
     if want("longtext"):
         e0 = ctx.evals
         longs = list(R.perms(5))
@@ -782,6 +972,9 @@ def replay(ctx, rec):
     elif sub.startswith("classical:"):
         pset = tuple(tuple(p) for p in case["patterns"])
         check_classical_set(ctx, pset, profiles(7), "full" if len(pset) <= 2 else "short")
+    elif sub.startswith("minimal:"):
+        pset = tuple(tuple(p) for p in case["patterns"])
+        check_minimal_set(ctx, pset, case.get("orders", "all"), True)
     elif sub.startswith("text:"):
         seq = tuple(tuple(p) for p in case["patterns"])
         L = lib()
